@@ -1,6 +1,7 @@
 import HpxVerif.Lemmas.PolyLemmas
 import HpxVerif.Props.C16
 import HpxVerif.Lemmas.PolyReal6
+import HpxVerif.Model.PolyExact
 
 set_option autoImplicit false   -- an unknown identifier in a statement is an error, never a new variable
 
@@ -236,6 +237,103 @@ theorem coverage_vertex_kept_allsky (cfg : Cfg) (depth : Nat) (vertices : List (
   intro hno v hv hlt
   obtain ⟨rfl, rfl⟩ := h4 hno
   exact vertex_cell_kept_allsky cfg depth poly hs (depth + 2) cells h5 v hv hlt
+
+/-! ## both modes: `polygon_coverage(vertices, exact_solution)` -/
+
+/-- the approximate mode is the two-mode function with no extra cell -/
+theorem coverage_approx_is_mode_false (cfg : Cfg) (depth : Nat) (vertices : List (α × α)) :
+    polygonCoverage cfg depth vertices false = polygonCoverageApprox cfg depth vertices := by
+  unfold polygonCoverage polygonCoverageWith polygonCoverageApprox
+  simp only [Bool.false_eq_true, if_false]
+  split
+  · rfl
+  · cases Polygon.new cfg.debug vertices with
+    | none => rfl
+    | some poly =>
+      simp only []
+      cases boundingCone poly.vertices with
+      | none => rfl
+      | some cr =>
+        obtain ⟨centre, radius⟩ := cr
+        simp only []
+        congr 1
+        all_goals first
+          | rfl
+          | (funext a; cases List.mapM (fun c => Hash.hashV2 cfg depth c.lon c.lat) poly.vertices <;> simp only [List.append_nil])
+          | (funext a b; cases List.mapM (fun c => Hash.hashV2 cfg depth c.lon c.lat) poly.vertices <;> simp only [List.append_nil])
+
+/-- what `polygon_coverage` returns in either mode, when it returns: the encoded concatenation of the descents below its
+    start cells, with the classifier built from the polygon and the sorted list of the vertex cells **plus, in the exact
+    mode, the cells of the special points of every edge** (`special_points_finder::arc_special_points`, modelled bit for
+    bit in `Model/SpecialPoints.lean`) -/
+theorem coverage_spec_modes (cfg : Cfg) (depth : Nat) (vertices : List (α × α)) (exact : Bool) (b : BMOC)
+    (h : polygonCoverage cfg depth vertices exact = some b) :
+    depth ≤ 29 ∧ ∃ (poly : Polygon α) (hs ex : List Nat) (ds : Nat) (roots : List Nat) (cells : List Cell),
+      Polygon.new cfg.debug vertices = some poly ∧
+      poly.vertices.mapM (fun c => Hash.hashV2 cfg depth c.lon c.lat) = some hs ∧
+      (if exact then specialHashes cfg depth poly else some []) = some ex ∧
+      ds ≤ depth ∧ (C2V.hasBestStartingDepth (α := α) (match boundingCone poly.vertices with | some x => x.2 | none => Num.zero) = false →
+        ds = 0 ∧ roots = List.range 12) ∧
+      roots.foldlM (fun acc r =>
+        (coverRec depth (polyClassifier cfg depth poly (dedupAdj (sortNat (hs ++ ex)))) (depth + 2) ds r 0).map (acc ++ ·)) [] = some cells ∧
+      b = { dmax := depth, entries := cells.map (encode depth) } := by
+  unfold polygonCoverage polygonCoverageWith at h
+  split at h
+  · simp at h
+  · rename_i hd
+    refine ⟨by omega, ?_⟩
+    split at h
+    · simp at h
+    · rename_i poly hpoly
+      split at h
+      · simp at h
+      · rename_i centre radius hbc
+        simp only at h
+        split at h
+        · simp at h
+        · rename_i ds roots hroots
+          split at h
+          · simp at h
+          · rename_i hs hhs
+            split at h
+            · simp at h
+            · rename_i ex hex
+              simp only [Option.map_eq_some_iff] at h
+              obtain ⟨cells, hcells, hb⟩ := h
+              refine ⟨poly, hs, ex, ds, roots, cells, hpoly, hhs, ?_, ?_, ?_, hcells, hb.symm⟩
+              · cases exact <;> simpa using hex
+              · split at hroots
+                · cases hroots; omega
+                · split at hroots
+                  · simp at hroots
+                  · split at hroots
+                    · simp at hroots
+                    · simp only [Option.map_eq_some_iff] at hroots
+                      obtain ⟨nm, _, hnm⟩ := hroots
+                      cases hnm
+                      exact Nat.min_le_right _ _
+              · intro hno
+                rw [hbc] at hno
+                simp only at hno
+                simp only [hno] at hroots
+                simp at hroots
+                exact ⟨hroots.1.symm, hroots.2.symm⟩
+
+/-- **in both modes the cell of every vertex — and, in the exact mode, of every special point — is kept**, whatever the
+    floating-point tests answer, when the start cells are the 12 base cells -/
+theorem coverage_kept_allsky_modes (cfg : Cfg) (depth : Nat) (vertices : List (α × α)) (exact : Bool) (b : BMOC)
+    (h : polygonCoverage cfg depth vertices exact = some b) :
+    ∃ (poly : Polygon α) (hs ex : List Nat) (cells : List Cell), Polygon.new cfg.debug vertices = some poly ∧
+      poly.vertices.mapM (fun c => Hash.hashV2 cfg depth c.lon c.lat) = some hs ∧
+      (if exact then specialHashes cfg depth poly else some []) = some ex ∧
+      b.entries = cells.map (encode depth) ∧
+      (C2V.hasBestStartingDepth (α := α) (match boundingCone poly.vertices with | some x => x.2 | none => Num.zero) = false →
+        ∀ v ∈ hs ++ ex, v < 12 * 4 ^ depth → ∃ c ∈ cells, c.depth ≤ depth ∧ v >>> ((depth - c.depth) <<< 1) = c.hash) := by
+  obtain ⟨_, poly, hs, ex, ds, roots, cells, h1, h2, h3, _, h4, h5, h6⟩ := coverage_spec_modes cfg depth vertices exact b h
+  refine ⟨poly, hs, ex, cells, h1, h2, h3, by rw [h6], ?_⟩
+  intro hno v hv hlt
+  obtain ⟨rfl, rfl⟩ := h4 hno
+  exact vertex_cell_kept_allsky cfg depth poly (hs ++ ex) (depth + 2) cells h5 v hv hlt
 
 /-- the table of limits that selects the starting depth is regular (each depth halves the limit, relative excess
     `≈ 0.05·2^-k`): the obligation of C16 about the constants of the source, required here because the start cells of this
